@@ -233,7 +233,7 @@ fn exec_proc(flags: &str, index: &str, store: &str, roots: &str, items: &str) ->
     }
     let (ic, ii) = (fl[0] == '1', fl[1] == '1');
     let be = MemBackend::new();
-    let (h, repo) = match RepoHandle::init(be, None, &ConfigOptions::default()) {
+    let (h, repo) = match RepoHandle::init_nc(be, None, &ConfigOptions::default()) {
         Ok(x) => x,
         Err(e) => return crate::util::errkind(&e),
     };
@@ -255,7 +255,7 @@ fn exec_proc(flags: &str, index: &str, store: &str, roots: &str, items: &str) ->
         return crate::util::errkind(&e);
     }
     drop(repo);
-    let repo = match h.open().and_then(|r| r.to_indexed_ids()) {
+    let repo = match h.open_nc().and_then(|r| r.to_indexed_ids()) {
         Ok(r) => r,
         Err(e) => return crate::util::errkind(&e),
     };
@@ -644,7 +644,7 @@ pub fn remove_from_index(h: &RepoHandle, ids: &BTreeSet<Id>) -> rustic_core::Rus
     if ids.is_empty() {
         return Ok(());
     }
-    let repo = h.open()?;
+    let repo = h.open_nc()?;
     let files: Vec<(IndexId, IndexFile)> = repo.stream_files::<IndexFile>()?.collect::<rustic_core::RusticResult<_>>()?;
     let mut newf = IndexFile::default();
     for (_, f) in &files {
@@ -676,7 +676,7 @@ pub fn new_snap() -> rustic_core::repofile::SnapshotFile {
 
 /// Compare a snapshot read back through ls + dump with the source it was made from.
 fn reads_back_as(h: &RepoHandle, snap: &rustic_core::repofile::SnapshotFile, src: &[SE]) -> Result<bool, String> {
-    let repo = h.open().and_then(|r| r.to_indexed()).map_err(|e| crate::util::errkind(&e))?;
+    let repo = h.open_nc().and_then(|r| r.to_indexed()).map_err(|e| crate::util::errkind(&e))?;
     let got = crate::repo::read_back(&repo, snap).map_err(|e| crate::util::errkind(&e))?;
     let mut exp: Vec<(Vec<u8>, String, Option<Vec<u8>>, Option<Vec<u8>>, Option<i64>)> = vec![(b"src".to_vec(), "dir".into(), None, None, Some(ROOT_TIME))];
     for e in src {
@@ -724,22 +724,22 @@ fn exec_e2e(flags: &str, pm: &str, a: &str, a2: &str, rmdata: &str, rmtree: &str
             }
         };
     }
-    let (h, repo) = tryk!(RepoHandle::init(MemBackend::new(), None, &fixed64_config()));
+    let (h, repo) = tryk!(RepoHandle::init_nc(MemBackend::new(), None, &fixed64_config()));
     drop(repo);
     let force = BackupOptions::default().parent_opts(ParentOptions::default().force(true));
     // parents
-    let repo_a = tryk!(h.open().and_then(|r| r.to_indexed_ids()));
+    let repo_a = tryk!(h.open_nc().and_then(|r| r.to_indexed_ids()));
     let snap_a = tryk!(repo_a.archive(&force, &LogSource::new(sa.clone()), new_snap(), &[PathBuf::from(crate::repo::SRC_ROOT)]));
     let mut snap_a2 = None;
     if a2 != "-" {
         std::thread::sleep(std::time::Duration::from_millis(2));
-        let r = tryk!(h.open().and_then(|r| r.to_indexed_ids()));
+        let r = tryk!(h.open_nc().and_then(|r| r.to_indexed_ids()));
         snap_a2 = Some(tryk!(r.archive(&force, &LogSource::new(sa2.clone()), new_snap(), &[PathBuf::from(crate::repo::SRC_ROOT)])));
     }
     // remove blobs from the index
     let mut rm_ids: BTreeSet<Id> = rmd.iter().map(|l| sha(&block(*l))).collect();
     {
-        let r = tryk!(h.open().and_then(|r| r.to_indexed_ids()));
+        let r = tryk!(h.open_nc().and_then(|r| r.to_indexed_ids()));
         for p in &rmt {
             if p.is_empty() {
                 _ = rm_ids.insert(*snap_a.tree);
@@ -774,7 +774,7 @@ fn exec_e2e(flags: &str, pm: &str, a: &str, a2: &str, rmdata: &str, rmtree: &str
     }
     let src_b = LogSource::new(sb.clone());
     std::thread::sleep(std::time::Duration::from_millis(2));
-    let repo_p = tryk!(h.open().and_then(|r| r.to_indexed_ids()));
+    let repo_p = tryk!(h.open_nc().and_then(|r| r.to_indexed_ids()));
     let snap_p = tryk!(repo_p.archive(&BackupOptions::default().parent_opts(popts), &src_b, new_snap(), &[PathBuf::from(crate::repo::SRC_ROOT)]));
     drop(repo_p);
     let used: Vec<String> = snap_p.parents.iter().map(|i| i.to_hex().to_string()).collect();
@@ -793,7 +793,7 @@ fn exec_e2e(flags: &str, pm: &str, a: &str, a2: &str, rmdata: &str, rmtree: &str
         None
     };
     // forced backup of the same source
-    let repo_f = tryk!(h.open().and_then(|r| r.to_indexed_ids()));
+    let repo_f = tryk!(h.open_nc().and_then(|r| r.to_indexed_ids()));
     let src_f = LogSource::new(sb.clone());
     let snap_f = tryk!(repo_f.archive(&force, &src_f, new_snap(), &[PathBuf::from(crate::repo::SRC_ROOT)]));
     drop(repo_f);
